@@ -329,6 +329,146 @@ func (g *gen) pair() pair {
 	return pair{a, b, edits}
 }
 
+
+// ---------- twins: the same subtree at several paths, edited identically ----------
+
+func at(root *gn, path []string) *gn {
+	for _, n := range path {
+		if root == nil || root.kids == nil {
+			return nil
+		}
+		root = root.kids[n]
+	}
+	return root
+}
+
+// twinPair stores one subtree (a file, a chunked file or a small directory) at 2-3
+// different paths, at different depths and partly under different names, and gives
+// every copy the same edit in b, so that the same (before, after) pair of children
+// occurs at several paths of one Diff.  Independent edits are mixed in.
+func (g *gen) twinPair() pair {
+	r := g.e.Rng
+	budget := 3 + r.Intn(14)
+	anc := g.tree(1+r.Intn(3), &budget)
+	small := 2 + r.Intn(4)
+	var twin *gn
+	switch r.Intn(5) {
+	case 0, 1:
+		twin = file(g.content() + "-twin")
+	case 2:
+		twin = chunked(g.content() + "-twin")
+	default:
+		twin = g.tree(1+r.Intn(2), &small)
+		twin.kids["t"] = file("twin-marker") // never empty, never equal to another directory by accident
+	}
+	// host directories: existing ones and fresh nested ones at growing depth
+	var hosts [][]string
+	var walk func(n *gn, p []string)
+	walk = func(n *gn, p []string) {
+		if n.isDir() {
+			hosts = append(hosts, append([]string(nil), p...))
+			for _, k := range n.names() {
+				walk(n.kids[k], append(p, k))
+			}
+		}
+	}
+	walk(anc, nil)
+	deep := []string{}
+	for i, n := 0, 1+r.Intn(3); i < n; i++ {
+		deep = append(deep, []string{"n1", "n2", "n3"}[i])
+		cur := at(anc, deep[:len(deep)-1])
+		if _, ok := cur.kids[deep[len(deep)-1]]; !ok || !cur.kids[deep[len(deep)-1]].isDir() {
+			cur.kids[deep[len(deep)-1]] = dir(nil)
+		}
+		hosts = append(hosts, append([]string(nil), deep...))
+	}
+	copies := 2 + r.Intn(2)
+	var places [][]string
+	sameName := r.Intn(2) == 0
+	for i := 0; i < copies; i++ {
+		h := hosts[r.Intn(len(hosts))]
+		name := "tw"
+		if !sameName {
+			name = []string{"tw", "tw2", "copy"}[i]
+		}
+		full := append(append([]string(nil), h...), name)
+		dupe := false
+		for _, q := range places {
+			if strings.Join(q, "/") == strings.Join(full, "/") || strings.HasPrefix(strings.Join(full, "/")+"/", strings.Join(q, "/")+"/") ||
+				strings.HasPrefix(strings.Join(q, "/")+"/", strings.Join(full, "/")+"/") {
+				dupe = true
+			}
+		}
+		if dupe || at(anc, h) == nil || !at(anc, h).isDir() {
+			continue
+		}
+		at(anc, h).kids[name] = twin.clone()
+		places = append(places, full)
+	}
+	a, b := anc.clone(), anc.clone()
+	edits := []string{fmt.Sprintf("t:twin-copies=%d", len(places))}
+	// the identical edit, drawn once
+	kind := r.Intn(5)
+	c1, c2 := g.content()+"-new", g.content()+"-new2"
+	var victim string
+	if tn := twin.names(); len(tn) > 0 {
+		victim = tn[r.Intn(len(tn))]
+	}
+	same := func(t *gn) *gn {
+		if len(t.kids) == 0 || !t.isDir() { // a file (or chunked file): new content
+			if kind == 0 && len(t.kids) > 0 {
+				return chunked(c1)
+			}
+			return file(c1)
+		}
+		n := t.clone()
+		victim := victim
+		if _, ok := n.kids[victim]; !ok { // an independent edit replaced this copy
+			victim = n.names()[0]
+		}
+		switch kind {
+		case 0:
+			n.kids["added"] = file(c1)
+		case 1:
+			delete(n.kids, victim)
+			n.kids["added"] = file(c2)
+		case 2:
+			n.kids[victim] = file(c1)
+		case 3:
+			n.kids[victim] = file(c1)
+			n.kids["sub"] = dir(map[string]*gn{"x": file(c2)})
+		default:
+			n.kids["t"] = file(c1)
+			n.kids["sub"] = dir(map[string]*gn{"x": file(c2), "y": file(c1)})
+		}
+		return n
+	}
+	for i, n := 0, r.Intn(3); i < n; i++ {
+		edits = append(edits, "b:"+g.edit(b))
+	}
+	for i, q := range places {
+		host := at(b, q[:len(q)-1])
+		if host == nil || !host.isDir() {
+			continue // an independent edit removed the host
+		}
+		cur := host.kids[q[len(q)-1]]
+		if cur == nil {
+			continue
+		}
+		if i == len(places)-1 && len(places) == 3 && r.Intn(3) == 0 {
+			host.kids[q[len(q)-1]] = file(c2) // one copy changed differently
+			edits = append(edits, "b:twin-edited-differently")
+			continue
+		}
+		host.kids[q[len(q)-1]] = same(cur)
+		edits = append(edits, "b:twin-same-edit")
+	}
+	if r.Intn(3) == 0 {
+		edits = append(edits, "a:"+g.edit(a))
+	}
+	return pair{a, b, edits}
+}
+
 func corpus() []pair {
 	d := dir
 	m := func(kv ...any) map[string]*gn {
@@ -357,11 +497,43 @@ func corpus() []pair {
 		{a: d(m("a", file("1"))), b: d(m("a", d(nil)))},
 		{a: d(m("a", file("1"), "b", file("1"))), b: d(m("a", file("2"), "c", file("1")))},
 		{a: deep(d(m("s", file("1")))), b: deep(d(m("s", file("2"), "t", file("1"))))},
+		// the same (before, after) pair of children at several paths
+		{a: d(m("d1", d(m("f", file("1"))), "d2", d(m("f", file("1"))))), b: d(m("d1", d(m("f", file("2"))), "d2", d(m("f", file("2")))))},
+		{a: d(m("f", file("1"), "p", d(m("q", d(m("g", file("1"), "h", file("7"))))))), b: d(m("f", file("2"), "p", d(m("q", d(m("g", file("2"), "h", file("8")))))))},
+		{a: d(m("s", d(m("x", file("1"), "y", file("2"))), "u", d(m("s", d(m("x", file("1"), "y", file("2"))), "v", d(m("w", d(m("x", file("1"), "y", file("2"))))))))),
+			b: d(m("s", d(m("x", file("3"), "z", file("4"))), "u", d(m("s", d(m("x", file("3"), "z", file("4"))), "v", d(m("w", d(m("x", file("3"), "z", file("4")))))))))},
 		// raw leaves: ApplyChange refuses them
 		{a: d(m("a", rawLeaf("1"))), b: d(m("a", rawLeaf("2")))},
 		{a: d(m("a", file("1"))), b: d(m("a", file("1"), "r", rawLeaf("2")))},
 		{a: d(m("a", rawLeaf("1"), "b", file("1"))), b: d(m("a", rawLeaf("1"), "b", file("2")))},
 	}
+}
+
+// repeatedPair walks a and b the way Diff does and reports whether one (before CID,
+// after CID) pair of differing same-named children is met at two different paths.
+func repeatedPair(ctx context.Context, ds ipld.DAGService, a, b ipld.Node, seen map[[2]string]bool) bool {
+	pa, oka := a.(*merkledag.ProtoNode)
+	pb, okb := b.(*merkledag.ProtoNode)
+	if !oka || !okb || (len(pa.Links()) == 0 && len(pb.Links()) == 0) {
+		return false
+	}
+	for _, la := range pa.Links() {
+		lb, err := pb.GetNodeLink(la.Name)
+		if err != nil || la.Cid == lb.Cid {
+			continue
+		}
+		k := [2]string{la.Cid.KeyString(), lb.Cid.KeyString()}
+		if seen[k] {
+			return true
+		}
+		seen[k] = true
+		ca, err1 := la.GetNode(ctx, ds)
+		cb, err2 := lb.GetNode(ctx, ds)
+		if err1 == nil && err2 == nil && repeatedPair(ctx, ds, ca, cb, seen) {
+			return true
+		}
+	}
+	return false
 }
 
 // ---------- entry point ----------
@@ -382,7 +554,12 @@ func TestC14(t *testing.T) {
 			p = cp[i]
 			st.Count("corpus")
 		} else {
-			p = g.pair()
+			if i%4 == 2 {
+				p = g.twinPair()
+				st.Count("twins")
+			} else {
+				p = g.pair()
+			}
 		}
 		if i%17 == 3 && i >= len(cp) {
 			p.b = p.a.clone() // Diff(a, a)
@@ -420,6 +597,9 @@ func TestC14(t *testing.T) {
 			if strings.Contains(c.Path, "/") {
 				nested = true
 			}
+		}
+		if repeatedPair(ctx, ds, a, b, map[[2]string]bool{}) {
+			st.Count("same-(before,after)-child-pair-at-two-paths")
 		}
 		fresh, err := ds.Get(ctx, na.Cid())
 		if err != nil {
